@@ -168,3 +168,152 @@ func isLayoutType(t types.Type) bool {
 }
 
 func trimPkg(s string) string { return strings.TrimPrefix(s, "in_toto.") }
+
+// ---------------------------------------------------------------------------
+// stage lookup with one level of helper inlining (DESIGN §3 A2 summaries, bound 1):
+// a stage call may sit directly in the entry point or in an in_toto helper that the entry point calls.
+
+type stageCall struct {
+	f    *ssa.Function       // the entry point (frame of reference)
+	call ssa.CallInstruction // the stage call itself (in f or in g)
+	via  ssa.CallInstruction // call in f of the helper g containing `call` (nil if direct)
+	g    *ssa.Function       // helper (nil if direct)
+}
+
+// stages lists the calls of callee `name` made by f directly or through one in_toto helper.
+func (p *Prog) stages(f *ssa.Function, name string) []*stageCall {
+	var out []*stageCall
+	for _, c := range callsIn(f, name) {
+		out = append(out, &stageCall{f: f, call: c})
+	}
+	for _, via := range allCalls(f) {
+		g := via.Common().StaticCallee()
+		if g == nil || g == f || g.Blocks == nil || g.Pkg != p.pkg("in_toto") || fname(g) == name {
+			continue
+		}
+		// only helpers that are not themselves stages of the pipeline (unexported functions)
+		if g.Object() != nil && g.Object().Exported() {
+			continue
+		}
+		for _, c := range callsIn(g, name) {
+			out = append(out, &stageCall{f: f, call: c, via: via, g: g})
+		}
+	}
+	return out
+}
+
+func (p *Prog) stage(f *ssa.Function, name string) *stageCall {
+	if s := p.stages(f, name); len(s) > 0 {
+		return s[0]
+	}
+	return nil
+}
+
+// site is the call in the entry point's frame.
+func (s *stageCall) site() ssa.CallInstruction {
+	if s.via != nil {
+		return s.via
+	}
+	return s.call
+}
+
+// arg returns argument i of the stage call mapped into the entry point's frame when it is a helper parameter.
+func (s *stageCall) arg(i int) (ssa.Value, ssa.Instruction) {
+	a := s.call.Common().Args[i]
+	if s.via != nil {
+		if prm, ok := resolve(a, s.call).(*ssa.Parameter); ok && prm.Parent() == s.g {
+			return s.via.Common().Args[paramIndex(prm)], s.via
+		}
+	}
+	return a, s.call
+}
+
+// helperGuarantees: every success return of helper g is dominated by the nil-error edge of call.
+func (p *Prog) helperGuarantees(g *ssa.Function, call ssa.CallInstruction) bool {
+	rets := p.nilErrReturns(g)
+	if len(rets) == 0 {
+		return false
+	}
+	for _, r := range rets {
+		if p.okCallAt(call, r.Block()) {
+			continue
+		}
+		// `return stage(...)` directly
+		ei := errIndex(g)
+		if pc, _ := producer(r.Results[ei], r); pc == call {
+			continue
+		}
+		return false
+	}
+	return true
+}
+
+// stageOKAt: the stage is known to have succeeded at block blk of the entry point.
+func (p *Prog) stageOKAt(s *stageCall, blk *ssa.BasicBlock) bool {
+	if s == nil {
+		return false
+	}
+	if s.via == nil {
+		return p.okCallAt(s.call, blk)
+	}
+	return p.okCallAt(s.via, blk) && p.helperGuarantees(s.g, s.call)
+}
+
+// stageAfter: stage s runs only where stage g has succeeded (both possibly in helpers).
+func (p *Prog) stageAfter(s, guard *stageCall) bool {
+	if s == nil || guard == nil {
+		return false
+	}
+	if s.g != nil && s.g == guard.g {
+		// same helper: local dominance
+		return p.okCallAt(guard.call, s.call.Block())
+	}
+	return p.stageOKAt(guard, s.site().Block())
+}
+
+// deepProducer resolves v to (callee name, result index), looking through one in_toto helper whose every
+// success return yields result j from the same inner call.
+func (p *Prog) deepProducer(v ssa.Value, at ssa.Instruction) (string, int) {
+	pc, idx := producer(v, at)
+	if pc == nil {
+		return "", -1
+	}
+	g := pc.Common().StaticCallee()
+	if g != nil && g.Blocks != nil && g.Pkg == p.pkg("in_toto") && (g.Object() == nil || !g.Object().Exported()) {
+		name, j := "", -1
+		for _, r := range p.nilErrReturns(g) {
+			if idx >= len(r.Results) {
+				return calleeName(pc), idx
+			}
+			ipc, iidx := producer(r.Results[idx], r)
+			if ipc == nil {
+				return calleeName(pc), idx
+			}
+			n := calleeName(ipc)
+			if name != "" && (n != name || iidx != j) {
+				return calleeName(pc), idx
+			}
+			name, j = n, iidx
+		}
+		if name != "" {
+			return name, j
+		}
+	}
+	return calleeName(pc), idx
+}
+
+// stageArgFrom: argument argIdx of stage s is result resIdx of producer (both looked up through helpers).
+func (p *Prog) stageArgFrom(s *stageCall, argIdx int, producerName string, resIdx int) (bool, string) {
+	if s == nil {
+		return false, "call missing"
+	}
+	if argIdx >= len(s.call.Common().Args) {
+		return false, "argument missing"
+	}
+	v, at := s.arg(argIdx)
+	n, i := p.deepProducer(v, at)
+	if n == producerName && i == resIdx {
+		return true, ""
+	}
+	return false, "argument is " + short(org(v))
+}
